@@ -144,7 +144,9 @@ func (g *lgen) dep(mgmt bool, boms []string) (Dep, bool) {
 	if r.Intn(6) == 0 {
 		d.Opt = pick(r, "true", "false")
 	}
-	if r.Intn(5) == 0 {
+	if g.m.Unresolved && r.Intn(8) == 0 {
+		d.Excl = append(d.Excl, Excl{"g", "${c}"})
+	} else if r.Intn(5) == 0 {
 		d.Excl = append(d.Excl, Excl{"g", pick(r, "x", "y", "*")})
 		if r.Intn(3) == 0 {
 			d.Excl = append(d.Excl, Excl{pick(r, "h", "*"), pick(r, "z", "*")})
@@ -392,6 +394,32 @@ func smallLineages() []*Lineage {
 		}
 	}
 	return out
+}
+
+// ---- the witnesses of the known findings and variants (also in corpus/C15), as ASTs so that
+// the optional Maven run validates the reference semantics on exactly these
+
+func witnessLineages() []*Lineage {
+	single := func(deps, mgmt []Dep, profiles []Profile, props []Prop) *Lineage {
+		return &Lineage{Root: Pom{G: "g", A: "c", V: "1", Deps: deps, Mgmt: mgmt, Profiles: profiles, Props: props}}
+	}
+	x := func(v string) Dep { return Dep{G: "g", A: "x", V: v} }
+	return []*Lineage{
+		single([]Dep{x("${u}")}, nil, nil, nil),                                                               // a
+		single([]Dep{x("1"), x("2")}, nil, nil, nil),                                                          // b
+		single([]Dep{{G: "${project.groupId}", A: "x", V: "1"}, x("2")}, nil, nil, nil),                       // c
+		single(nil, nil, []Profile{{Jdk: Jdk{Kind: 1, Neg: true, V: []int{1, 8}}, Deps: []Dep{x("1")}}}, nil), // d
+		{Root: Pom{G: "g", A: "c", V: "1", Mgmt: []Dep{{G: "g", A: "b", V: "1", Typ: "pom", Scope: "import"}}}, // f
+			Repo: []Pom{{A: "b", Parent: Key{"g", "q", "1"}, Packaging: "pom", Mgmt: []Dep{x("${project.parent.version}")}},
+				{G: "g", A: "q", V: "1", Packaging: "pom"}}},
+		single(nil, nil, []Profile{{Jdk: Jdk{Kind: 1, V: []int{11, 0, 7}}, Deps: []Dep{x("1")}}}, nil), // g
+		single([]Dep{x("${project.artifactId}")}, nil, nil, nil),
+		single([]Dep{{G: "g", A: "x", V: "1", Excl: []Excl{{"g", "${e}"}}}}, nil, nil, []Prop{{"e", "y"}}),
+		single([]Dep{x("1")}, nil, []Profile{{Abd: "true", Deps: []Dep{x("2")}}}, nil),
+		single(nil, nil, []Profile{{Jdk: Jdk{Kind: 1, V: []int{1}}, Deps: []Dep{x("1")}}}, nil),
+		single(nil, nil, []Profile{{OS: OS{Family: "linux"}, Deps: []Dep{x("1")}}}, nil),
+		single([]Dep{x("${version}")}, nil, nil, []Prop{{"version", "${project.version}"}}), // prefix-aware recursion: a cycle for Maven
+	}
 }
 
 // ---- property tables for the termination clause
